@@ -276,6 +276,25 @@ def run_C07(ctx):
     for case, a, b in never_ne:
         ctx.failures.append(dict(batch="never-vs-none", case=case, impl=a, model=b,
                                  clauses=["never_expiring_deadline_eq_no_deadline"], dbg=False))
+    # promptness on larger inputs: a big dissimilar block of repeated items before a unique common anchor,
+    # near-identical and unrelated sequences, deadline expired before the start / after a few probes
+    big = []
+    for n in tiered(ctx, [200, 800], [200, 800, 2000]):
+        for rep in range(tiered(ctx, 3, 10)):
+            A = [ctx.rng.randrange(3) for _ in range(n)]
+            B = [3 + ctx.rng.randrange(3) for _ in range(n)]
+            fams = [(A + [100, 101, 102], B + [100, 101, 103]),
+                    ([100] + A + [101], [100] + B + [101]),
+                    (gen.rand_seq(ctx.rng, n, 4), gen.rand_seq(ctx.rng, n, 4)),
+                    (list(range(n)), gen.edit_seq(ctx.rng, list(range(n)), 5, 3 * n))]
+            for a, b in fams:
+                for alg in ALGS:
+                    if alg == "L" and n > 800:
+                        continue
+                    for k in (0, 1, 3):
+                        big.append(gen.raw_line(alg, a, b, dl=k))
+                        ctx.count("raw:large-expired-deadline")
+    C.evaluate(ctx, "raw-large-expired", big, rel, x=False, cap=120)
     # plumbing: capture_diff_deadline reaches the algorithm (probes > 0, same ops as the model with clock 0)
     cap = []
     for a, b, r, idx in pairs[:tiered(ctx, 400, 4000)]:
@@ -579,6 +598,27 @@ def run_C13(ctx):
         nw = [1000 + ctx.rng.randrange(1000) for _ in range(tot_n)]
         lines.append("iter ops=%s old=%s new=%s" % (gen.fmt_calls(ops), gen.fmt_list(o), gen.fmt_list(nw)))
         ctx.count("iter:op-list")
+    # whole-list iteration over NON-contiguous op lists: subsets and joined groups of a valid list
+    for _ in range(tiered(ctx, 2000, 20000)):
+        n = ctx.rng.randrange(0, 4)
+        ops = gen.random_alternating(ctx.rng, n)
+        if len(ops) < 2:
+            continue
+        tot_o = sum(c[3] if c[0] == "E" else c[2] if c[0] in "DR" else 0 for c in ops)
+        tot_n = sum(c[3] if c[0] in "EI" else c[4] if c[0] == "R" else 0 for c in ops)
+        o = [ctx.rng.randrange(1000) for _ in range(tot_o)]
+        nw = [1000 + ctx.rng.randrange(1000) for _ in range(tot_n)]
+        k = ctx.rng.randrange(3)
+        if k == 0:      # changes only
+            sub = [c for c in ops if c[0] != "E"]
+        elif k == 1:    # drop a random op
+            sub = list(ops)
+            del sub[ctx.rng.randrange(len(sub))]
+        else:           # reorder two halves
+            h = ctx.rng.randrange(1, len(ops))
+            sub = ops[h:] + ops[:h]
+        lines.append("iter ops=%s old=%s new=%s" % (gen.fmt_calls(sub), gen.fmt_list(o), gen.fmt_list(nw)))
+        ctx.count("iter:non-contiguous-op-list")
     C.evaluate(ctx, "iter", lines, rel, nontrivial=lambda comp, kv, impl: "changes=-" not in impl)
 
 
@@ -595,7 +635,7 @@ SPECS["C13"] = dict(
              "differential testing over all four op kinds x offsets x lengths and random op lists, not a proof about the Rust source.",
         technique="Coq proof of model (state machine = declarative spec) + model/implementation correspondence + verified checker on implementation output",
     ),
-    relevant=lambda comp, kv: {"no_panic", "iter_spec", "slices_spec", "recap_id"},
+    relevant=lambda comp, kv: {"no_panic", "iter_spec", "slices_spec", "recap_id", "all_changes_concat"},
     run=run_C13,
     generators="iter component: all four op kinds x offsets 0..3 on both sides x lengths 0..3 over sequences whose old "
                "and new values are disjoint, plus random op lists over random sequences: iter_changes, iter_slices, "
@@ -845,6 +885,26 @@ def run_C14(ctx):
                         continue
                     cases.append((tok, alg, "str", None, ctx.rng.choice(["-", "0", "1"]), o, n))
                     ctx.count("textdiff:around-threshold")
+    for rep in range(tiered(ctx, 40, 400)):
+        n = ctx.rng.choice([101, 105, 130, 180])
+        base = [b"L%d" % i for i in range(n)]
+        # a few tokens repeated: once in the shared head and once more in the part that differs
+        for _ in range(ctx.rng.randrange(1, 4)):
+            base.insert(ctx.rng.randrange(len(base) + 1), base[ctx.rng.randrange(0, 10)])
+        o = list(base)
+        nw = list(base)
+        tail = ctx.rng.randrange(3, 8)
+        seg = nw[-tail:]
+        ctx.rng.shuffle(seg)
+        nw[-tail:] = seg
+        if ctx.rng.random() < 0.5:
+            nw.insert(len(nw) - ctx.rng.randrange(0, tail), o[0])
+        ot = b"".join(x + b"\n" for x in o)
+        nt = b"".join(x + b"\n" for x in nw)
+        for alg in ALGS:
+            cases_u = (("lines", alg, "str", None, "-", ot, nt),)
+            cases.extend(cases_u)
+            ctx.count("textdiff:mostly-unique-above-threshold")
     C.evaluate(ctx, "textdiff", textdiff_lines(ctx, cases), rel, nontrivial=nontrivial_text, cap=60)
     idl = []
     for a, b in gen.all_pairs(3, tiered(ctx, 3, 4)):
@@ -911,9 +971,9 @@ def run_C05(ctx):
                 lines.append(udiff_line(alg, "str", radius, header, hint, via, o, n))
             lines.append(udiff_line(alg, "str", radius, header, 1, "fn", o, n))
             ctx.count("udiff:str", 4)
-        for via in ("display", "writer", "hunks"):
+        for via in ("display", "writer", "hunks", "writer1"):
             lines.append(udiff_line(alg, "bytes", radius, header, hint, via, o, n))
-        ctx.count("udiff:bytes", 3)
+        ctx.count("udiff:bytes", 4)
     C.evaluate(ctx, "corpus", corpus_lines({"udiff"}), rel, nontrivial=lambda comp, kv, impl: impl != "out=-")
     C.evaluate(ctx, "udiff", lines, rel, nontrivial=lambda comp, kv, impl: impl.split(" ")[0] != "out=-")
 
